@@ -213,6 +213,63 @@ class Distance(Harness):
         return out
 
 
+class DistanceF64(Harness):
+    """IEEE binary64 semantics of the chord kernel of distance() (arithmetic and square root only): rounding must neither push
+    the chord of two unit vectors beyond the diameter (an exception for antipodal points) nor collapse distinct points"""
+
+    functions = (AngularCoordinates.distance, AngularDistances.from_3d)
+    modules = MODS
+    xval = False
+    fp = True
+
+    def __init__(self, wrong=None, families=False):
+        self.wrong, self.families = wrong, families
+        self.name = "coords.distance.float64" + (".special_first" if families else "") + (".twin-" + wrong if wrong else "")
+        self.bounds = ("two float64 vectors with |component| <= 1 and squared norm (as computed in float64) within 2^-51 of 1 -- what "
+                       "to_3d can return; all 2^384 bit patterns in that set")
+        self.assumptions = ("to_3d returns vectors whose float64 squared norm is within 2 ulp of 1",
+                            "libm arcsin: finite, sign preserving, zero only at zero (no accuracy claim about arcsin itself)")
+        self.must_fail = wrong is not None
+
+    def make_inputs(self, eng):
+        from vf import fpx
+
+        d = {"a": fpx.fparr("a", (1, 3)), "b": fpx.fparr("b", (1, 3))}
+        for v in d.values():
+            for c in v.ravel():
+                eng.assume(abs(c) <= 1.0)
+            if self.wrong:
+                continue  # the twin only has to show that the obligations can fail: any vectors in the box
+            n2 = v[0, 0] * v[0, 0] + v[0, 1] * v[0, 1] + v[0, 2] * v[0, 2]
+            eng.assume((n2 >= 1.0 - 2.0**-51) & (n2 <= 1.0 + 2.0**-51))
+        # search order only (all cases are explored and the last contains the others): special positions first, because a
+        # bit-blasted search finds counterexamples there in seconds and in the general case only after tens of minutes
+        d["family"] = eng.choose(3, "special_positions_first") if self.families else 2
+        if d["family"] == 0:  # a is the x axis
+            eng.assume((d["a"][0, 0] == 1.0) & (d["a"][0, 1] == 0.0) & (d["a"][0, 2] == 0.0))
+        elif d["family"] == 1:  # exactly opposite vectors
+            for i in range(3):
+                eng.assume(d["b"][0, i] == -d["a"][0, i])
+        return d
+
+    def concrete_inputs(self, m, inp):
+        return concretise(m, {"a": inp["a"], "b": inp["b"]})
+
+    def body(self, inp):
+        a, b = inp["a"], inp["b"]
+        P, Q = XYZCoords.from_xyz(a), XYZCoords.from_xyz(b)
+        try:
+            ang = P.distance(Q).data[0]
+        except ValueError:
+            return [Check("never_raises_for_unit_vectors", cond=False)]
+        apart = [abs(a[0, i] - b[0, i]) >= (2.0**-30 if self.wrong != "exact" else 0.0) for i in range(3)]
+        far = apart[0] | apart[1] | apart[2] if isinstance(apart[0], SB) else any(apart)
+        pos = ang > 0
+        return [Check("never_raises_for_unit_vectors", cond=True),
+                Check("distinct_points_have_positive_distance", cond=((~far) | pos) if isinstance(far, SB) else ((not far) or bool(pos))),
+                Check("non_negative", cond=(ang >= 0) if isinstance(pos, SB) else bool(ang >= 0))]
+
+
 class Mean(Harness):
     functions = (AngularCoordinates.mean,)
     modules = MODS
@@ -306,9 +363,10 @@ class Sgn(Harness):
 
 
 def harnesses(tier):
-    hs = [Sgn(), RoundTrip(), Chord(), TooLong(), Distance(), Mean(1, False), Mean(2, True), RoundTrip(wrong="shift")]
+    hs = [Sgn(), RoundTrip(), Chord(), TooLong(), Distance(), From3d(), Mean(1, False), Mean(2, False), DistanceF64()]
     if tier == "thorough":
-        hs += [Mean(3, True), From3d()]
+        hs += [Mean(2, True), Mean(3, True), DistanceF64(families=True)]
+    hs += [RoundTrip(wrong="shift"), DistanceF64(wrong="exact")]
     return hs
 
 
